@@ -1,53 +1,226 @@
 /- Lemmas for C11 / C12 (gentest). -/
 import TddaVerif.Model.Gentest
+import Mathlib.Data.List.Nodup
+import Mathlib.Data.List.Perm.Subperm
+import Mathlib.Data.List.Range
 
 namespace TddaVerif.Props.C11.Lemmas
 open TddaVerif.Gentest
 
+/-- one step of reading decimal digits back (left inverse of `natText`) -/
+def decStep (acc : Nat) (c : Char) : Nat := acc * 10 + (c.toNat - 48)
+
+theorem digit_toNat : ∀ k, k < 10 → (Char.ofNat (48 + k)).toNat - 48 = k := by decide
+
+theorem digitsAux_decode : ∀ (fuel n : Nat) (acc : List Char), n < fuel →
+    (digitsAux fuel n acc).foldl decStep 0 = acc.foldl decStep n := by
+  intro fuel
+  induction fuel with
+  | zero => intro n acc h; omega
+  | succ fuel ih =>
+    intro n acc h
+    unfold digitsAux
+    simp only
+    split
+    · rename_i h0
+      simp only [List.foldl_cons, decStep, digit_toNat (n % 10) (Nat.mod_lt _ (by omega))]
+      congr 1; omega
+    · rename_i h0
+      rw [ih (n / 10) _ (by omega)]
+      simp only [List.foldl_cons, decStep, digit_toNat (n % 10) (Nat.mod_lt _ (by omega))]
+      congr 1; omega
+
+theorem natText_decode (n : Nat) : (natText n).foldl decStep 0 = n := by
+  unfold natText
+  rw [digitsAux_decode _ _ _ (by omega)]
+  rfl
+
 theorem natText_injective (a b : Nat) (h : natText a = natText b) : a = b := by
-  sorry
+  have := congrArg (fun l => l.foldl decStep 0) h
+  simpa [natText_decode] using this
+
+/-- if the loop's answer is taken, then so were all `fuel + 1` candidates it went through -/
+theorem bump_mem_all (base : Name) (taken : List Name) : ∀ (fuel q : Nat),
+    (bump base taken fuel q).1 ∈ taken → ∀ i, i ≤ fuel → base ++ natText (q + 1 + i) ∈ taken := by
+  intro fuel
+  induction fuel with
+  | zero =>
+    intro q h i hi
+    have : i = 0 := by omega
+    subst this
+    simpa [bump] using h
+  | succ fuel ih =>
+    intro q h i hi
+    unfold bump at h
+    simp only at h
+    split at h
+    · rename_i hc
+      cases i with
+      | zero => simpa using hc
+      | succ i =>
+        have := ih (q + 1) h i (by omega)
+        have e : q + 1 + (i + 1) = q + 1 + 1 + i := by omega
+        rw [e]; exact this
+    · rename_i hc
+      simp at hc
+      exact absurd h hc
 
 /-- the loop finds a name that is not taken -/
 theorem bump_fresh (base : Name) (taken : List Name) (q : Nat) :
     (bump base taken (taken.length + 1) q).1 ∉ taken := by
-  sorry
+  intro h
+  have hall := bump_mem_all base taken _ q h
+  let cands := (List.range (taken.length + 2)).map (fun i => base ++ natText (q + 1 + i))
+  have hnd : cands.Nodup := by
+    apply List.Nodup.map_on _ List.nodup_range
+    intro x _ y _ hxy
+    have := natText_injective _ _ (List.append_cancel_left hxy)
+    omega
+  have hsub : cands ⊆ taken := by
+    intro x hx
+    simp only [cands, List.mem_map, List.mem_range] at hx
+    obtain ⟨i, hi, rfl⟩ := hx
+    exact hall i (by omega)
+  have := (hnd.subperm hsub).length_le
+  simp [cands] at this
+  omega
+
 
 /-- every name handed out is new -/
 theorem testName_fresh (alnum : Char → Bool) (st : NameState) (b : Name) :
     (testName alnum st b).1 ∉ st.taken ∧ (testName alnum st b).2.taken = (testName alnum st b).1 :: st.taken := by
-  sorry
+  unfold testName
+  simp only
+  split
+  · exact ⟨bump_fresh _ _ _, rfl⟩
+  · rename_i hc
+    exact ⟨by simpa using hc, rfl⟩
 
 /-- the test names of any list of files are pairwise distinct and differ from everything taken before
     (in particular from the four fixed names) -/
 theorem testNames_nodup (alnum : Char → Bool) (st : NameState) (bs : List Name) :
     (testNames alnum st bs).Nodup ∧ ∀ n ∈ testNames alnum st bs, n ∉ st.taken := by
-  sorry
+  induction bs generalizing st with
+  | nil => simp [testNames]
+  | cons b bs ih =>
+    obtain ⟨hf, ht⟩ := testName_fresh alnum st b
+    obtain ⟨hnd, hnot⟩ := ih (testName alnum st b).2
+    rw [ht] at hnot
+    simp only [testNames, List.nodup_cons, List.mem_cons]
+    refine ⟨⟨?_, hnd⟩, ?_⟩
+    · intro hm
+      exact hnot _ hm (List.mem_cons_self ..)
+    · rintro n (rfl | hn)
+      · exact hf
+      · intro hmem
+        exact hnot n hn (List.mem_cons_of_mem _ hmem)
 
 theorem testNames_length (alnum : Char → Bool) (st : NameState) (bs : List Name) :
     (testNames alnum st bs).length = bs.length := by
-  sorry
+  induction bs generalizing st with
+  | nil => rfl
+  | cons b bs ih => simp [testNames, ih]
+
+/-- the test written for one reference file (the function zipped in `plan`) -/
+def fileTest (f : Name × Bool) (n : Name) : TestDef :=
+  { name := n, kind := some (if f.2 then Kind.textFile else Kind.binaryFile), subject := f.1 }
+
+theorem zipWith_names : ∀ (files : List (Name × Bool)) (names : List Name), files.length = names.length →
+    (List.zipWith fileTest files names).map (·.name) = names := by
+  intro files
+  induction files with
+  | nil => intro names h; cases names <;> simp_all
+  | cons f fs ih =>
+    intro names h
+    cases names with
+    | nil => simp at h
+    | cons n ns => simp [fileTest, ih ns (by simpa using h)]
+
+theorem zipWith_files : ∀ (files : List (Name × Bool)) (names : List Name), files.length = names.length →
+    ((List.zipWith fileTest files names).filter (fun t => t.kind == some .textFile || t.kind == some .binaryFile)).map
+        (fun t => (t.subject, t.kind == some .textFile)) = files := by
+  intro files
+  induction files with
+  | nil => intro names h; cases names <;> simp_all
+  | cons f fs ih =>
+    intro names h
+    cases names with
+    | nil => simp at h
+    | cons n ns =>
+      obtain ⟨f1, f2⟩ := f
+      cases f2 <;> simp [fileTest, ih ns (by simpa using h)]
+
+theorem zipWith_filter_string (files : List (Name × Bool)) (names : List Name) :
+    (List.zipWith fileTest files names).filter (fun t => t.kind == some .string) = [] := by
+  induction files generalizing names with
+  | nil => simp
+  | cons f fs ih =>
+    cases names with
+    | nil => simp
+    | cons n ns =>
+      obtain ⟨f1, f2⟩ := f
+      cases f2 <;> simp [fileTest, ih ns]
+
+theorem zipWith_filter_none (files : List (Name × Bool)) (names : List Name) :
+    (List.zipWith fileTest files names).filter (fun t => t.kind == none) = [] := by
+  induction files generalizing names with
+  | nil => simp
+  | cons f fs ih =>
+    cases names with
+    | nil => simp
+    | cons n ns =>
+      simp only [List.zipWith_cons_cons, List.filter_cons, fileTest]
+      simpa using ih ns
+
+theorem plan_eq (alnum : Char → Bool) (so se : Bool) (files : List (Name × Bool)) :
+    plan alnum so se files =
+  [{ name := "no_exception".toList, kind := none, subject := [] },
+   { name := "exit_code".toList, kind := none, subject := [] }] ++
+  (if so then [{ name := "stdout".toList, kind := some .string, subject := "stdout".toList }] else []) ++
+  (if se then [{ name := "stderr".toList, kind := some .string, subject := "stderr".toList }] else []) ++
+  (List.zipWith fileTest files (testNames alnum {} (files.map (·.1)))) := rfl
 
 /-- the script's test names are pairwise distinct: no test silently replaces another -/
 theorem plan_names_nodup (alnum : Char → Bool) (so se : Bool) (files : List (Name × Bool)) :
     ((plan alnum so se files).map (·.name)).Nodup := by
-  sorry
+  have hlen : files.length = (testNames alnum {} (files.map (·.1))).length := by
+    simp [testNames_length]
+  obtain ⟨hnd, hnot⟩ := testNames_nodup alnum {} (files.map (·.1))
+  have hres : ∀ n ∈ reserved, n ∉ testNames alnum {} (files.map (·.1)) :=
+    fun n hn hm => hnot n hm hn
+  have h1 := hres "no_exception".toList (by simp [reserved])
+  have h2 := hres "exit_code".toList (by simp [reserved])
+  have h3 := hres "stdout".toList (by simp [reserved])
+  have h4 := hres "stderr".toList (by simp [reserved])
+  simp only [String.toList] at h1 h2 h3 h4
+  rw [plan_eq]
+  simp only [List.map_append, zipWith_names _ _ hlen]
+  cases so <;> cases se <;> simp [hnd] <;>
+    first | exact ⟨h1, h2⟩ | exact ⟨h1, h2, h4⟩ | exact ⟨h1, h2, h3⟩ | exact ⟨h1, h2, h3, h4⟩
 
 /-- number of tests = files + the stream tests asked for + 2 -/
 theorem plan_length (alnum : Char → Bool) (so se : Bool) (files : List (Name × Bool)) :
     (plan alnum so se files).length = files.length + (if so then 1 else 0) + (if se then 1 else 0) + 2 := by
-  sorry
+  rw [plan_eq]
+  cases so <;> cases se <;> simp [testNames_length]
 
 /-- the file tests are, in order, exactly one per reference file, with the comparison its type asks for -/
 theorem plan_files (alnum : Char → Bool) (so se : Bool) (files : List (Name × Bool)) :
     ((plan alnum so se files).filter (fun t => t.kind == some .textFile || t.kind == some .binaryFile)).map
         (fun t => (t.subject, t.kind == some .textFile)) = files := by
-  sorry
+  have hlen : files.length = (testNames alnum {} (files.map (·.1))).length := by
+    simp [testNames_length]
+  rw [plan_eq]
+  simp only [List.filter_append, List.map_append, zipWith_files _ _ hlen]
+  cases so <;> cases se <;> simp
 
 theorem plan_streams (alnum : Char → Bool) (so se : Bool) (files : List (Name × Bool)) :
     (((plan alnum so se files).filter (fun t => t.kind == some .string)).map (·.subject)
       = (if so then ["stdout".toList] else []) ++ (if se then ["stderr".toList] else [])) ∧
     ((plan alnum so se files).filter (fun t => t.kind == none)).map (·.name) = ["no_exception".toList, "exit_code".toList] := by
-  sorry
+  rw [plan_eq]
+  simp only [List.filter_append, List.map_append, zipWith_filter_string, zipWith_filter_none]
+  cases so <;> cases se <;> simp
 
 /-- the calendar, stated independently: month lengths by name -/
 def RealDate (y m d : Nat) : Prop :=
@@ -56,13 +229,46 @@ def RealDate (y m d : Nat) : Prop :=
    (m = 2 ∧ d ≤ 28) ∨ (m = 2 ∧ d = 29 ∧ (y % 400 = 0 ∨ (y % 4 = 0 ∧ y % 100 ≠ 0))))
 
 theorem possibleDate_iff (y m d : Nat) : possibleDate y m d = true ↔ RealDate y m d := by
-  sorry
+  unfold possibleDate RealDate daysInMonth isLeap
+  simp only [Bool.and_eq_true, decide_eq_true_eq, List.mem_cons, List.not_mem_nil, or_false,
+    Bool.or_eq_true, beq_iff_eq, bne_iff_ne, ne_eq]
+  constructor
+  · rintro ⟨⟨⟨⟨⟨h1, h2⟩, h3⟩, h4⟩, h5⟩, h6⟩
+    refine ⟨h1, h2, h5, ?_⟩
+    split at h6
+    · split at h6 <;> omega
+    · split at h6 <;> omega
+  · rintro ⟨h1, h2, h3, h4⟩
+    split <;> split <;> omega
 
 /-- a number triple is date-like exactly when one of its three readings (d/m/y, y/m/d, m/d/y) is a real date in range -/
 theorem numDateLike_iff (n1 n2 n3 : Nat) (inRange : Nat → Nat → Nat → Bool) :
     numDateLike n1 n2 n3 inRange = true ↔
       (RealDate n3 n2 n1 ∧ inRange n3 n2 n1 = true) ∨ (RealDate n1 n2 n3 ∧ inRange n1 n2 n3 = true) ∨
       (RealDate n3 n1 n2 ∧ inRange n3 n1 n2 = true) := by
-  sorry
+  have key : ∀ y m d, possibleDate y m d = true → 1 ≤ d ∧ d ≤ 31 ∧ 1 ≤ m ∧ m ≤ 12 := by
+    intro y m d h
+    unfold possibleDate daysInMonth at h
+    simp only [Bool.and_eq_true, decide_eq_true_eq] at h
+    obtain ⟨⟨⟨⟨⟨h1, h2⟩, h3⟩, h4⟩, h5⟩, h6⟩ := h
+    refine ⟨h5, ?_, h3, h4⟩
+    split at h6
+    · split at h6 <;> omega
+    · split at h6 <;> omega
+  simp only [← possibleDate_iff]
+  unfold numDateLike
+  simp only [Bool.or_eq_true, Bool.and_eq_true, decide_eq_true_eq]
+  constructor
+  · rintro ((h | h) | h)
+    · exact Or.inl ⟨h.1.2, h.2⟩
+    · exact Or.inr (Or.inl ⟨h.1.2, h.2⟩)
+    · exact Or.inr (Or.inr ⟨h.1.2, h.2⟩)
+  · rintro (⟨h, hr⟩ | ⟨h, hr⟩ | ⟨h, hr⟩)
+    · have := key _ _ _ h
+      exact Or.inl (Or.inl ⟨⟨⟨⟨this.1, this.2.1⟩, this.2.2⟩, h⟩, hr⟩)
+    · have := key _ _ _ h
+      exact Or.inl (Or.inr ⟨⟨⟨⟨this.1, this.2.1⟩, this.2.2⟩, h⟩, hr⟩)
+    · have := key _ _ _ h
+      exact Or.inr ⟨⟨⟨⟨this.1, this.2.1⟩, this.2.2⟩, h⟩, hr⟩
 
 end TddaVerif.Props.C11.Lemmas
